@@ -42,6 +42,15 @@ for n in (2, 3):
 for n in (4, 5, 6):
     H(f"c04_ascii85_nopanic_{n}", "object.rs", {"C04": Q}, ["object::Stream::decode_ascii85"], f"all 256^{n} inputs of exactly {n} bytes (with or without EOD, any garbage): Ok or Err, no panic (overflow checks on)", timeout=600, mem_gb=6)
 
+H("c04_objstm_hostile_index", "object_stream.rs", {"C04": X}, ["object_stream::ObjectStream::new"],
+  "object stream with ANY 4 content bytes, /First 0..=4, ANY /N: value or error, no panic; parser::direct_object stubbed (finds nothing)", timeout=1500, mem_gb=14,
+  stubs=LS + ["parser::direct_object -> None (nom parser out of reach)"])
+
+for v, d in (("odd", "'10 0 11' (three integers)"), ("even", "'10 0 11 5' (two pairs)")):
+    H(f"c04_objstm_{v}_index_any_n", "object_stream.rs", {"C04": X}, ["object_stream::ObjectStream::new"],
+      f"object stream whose index block is {d}, ANY /N (i64): no panic and Ok; parser::direct_object stubbed (finds nothing)", timeout=1200, mem_gb=12,
+      stubs=LS + ["parser::direct_object -> None (nom parser out of reach)"])
+
 # =============================== C09 / C04: predictor plumbing, Length, compress =================
 H("c09_predictor_params", "object.rs", {"C09": Q}, ["object::Stream::decompress_predictor"],
   "Predictor 0..=20, Columns 1..=10^6, Colors 1..=32, Bits in {8,16}, each key an integer or null (= absent); png::decode_frame replaced by a recording stub",
@@ -56,6 +65,9 @@ for g in ("c2_k1_b8", "c1_k1_b16", "c1_k3_b8", "c2_k1_b16"):
 H("c09_length_set_content", "object.rs", {"C09": Q}, ["object::Stream::new", "object::Stream::set_content"], "3-byte initial content, 2 symbolic new bytes, stream with Filter", timeout=400, mem_gb=6, stubs=LS)
 H("c09_length_set_plain_content", "object.rs", {"C09": X}, ["object::Stream::set_plain_content"], "3-byte initial content, 2 symbolic new bytes", timeout=600, stubs=LS)
 H("c09_length_decompress", "object.rs", {"C09": X}, ["object::Stream::decompress"], "3 symbolic bytes through the tagged inflate stub", timeout=600, stubs=LS)
+H("c09_decompress_bookkeeping", "object.rs", {"C09": Q}, ["object::Stream::decompress", "object::Stream::set_content"],
+  "stream with Filter and DecodeParms, decoding stubbed to two fixed bytes: Filter and DecodeParms removed, content replaced, Length updated", timeout=900, mem_gb=12,
+  stubs=LS + ["object::Stream::decompressed_content -> fixed two bytes (decompress()'s bookkeeping only)"])
 H("c09_compress_never_longer", "object.rs", {"C09": Q}, ["object::Stream::compress", "object::Stream::set_content"],
   "22-byte content, encoder stub output length arbitrary 0..=24: never longer, Length consistent, Filter set iff replaced", timeout=900, mem_gb=12, stubs=LS + ["flate2::write::ZlibEncoder -> output of arbitrary length"])
 H("c09_compress_prefiltered", "object.rs", {"C09": Q}, ["object::Stream::compress"], "22-byte content, stream already has a Filter: untouched", timeout=400, mem_gb=6, stubs=LS)
@@ -73,8 +85,12 @@ for n, pr, to, mem in ((1, WK, 400, 6), (2, WK, 900, 14), (3, WKX, 900, 10), (4,
     H(f"c01_litstr_{n}", "writer.rs", pr, ["writer::Writer::write_string"],
       f"all literal strings of exactly {n} bytes: an ISO 7.3.4.2 reader (escapes, octal, balanced parentheses, EOL normalisation) recovers the bytes",
       timeout=to, mem_gb=mem, stubs=CONTAINS)
-H("c01_separator_scalars", "writer.rs", {"C01": X}, ["writer::Writer::need_separator", "writer::Writer::need_end_separator", "writer::Writer::write_object"],
-  "null, true/false, all i16 integers, references (id u8): separator predicates agree with the first/last byte write_object emits", timeout=900, mem_gb=8)
+SEP = ["writer::Writer::need_separator", "writer::Writer::need_end_separator", "writer::Writer::write_object"]
+SEPP = {"C01": Q, "C03": Q, "C14": Q}
+H("c01_separator_null", "writer.rs", SEPP, SEP, "null: separator predicates agree with the first/last byte write_object emits", timeout=600, mem_gb=6)
+H("c01_separator_bool", "writer.rs", SEPP, SEP, "true, false: separator predicates agree with the first/last byte write_object emits", timeout=600, mem_gb=6)
+H("c01_separator_integer", "writer.rs", SEPP, SEP, "all i16 integers: separator predicates agree with the first/last byte emitted", timeout=900, mem_gb=8)
+H("c01_separator_reference", "writer.rs", SEPP, SEP, "references with id, generation 0..=255: separator predicates agree with the first/last byte emitted", timeout=900, mem_gb=10)
 H("c01_separator_name", "writer.rs", {"C01": Q, "C03": Q, "C14": Q}, ["writer::Writer::need_separator", "writer::Writer::need_end_separator", "writer::Writer::write_name"],
   "all 1-byte names: separator predicates agree with the first/last byte emitted", timeout=900, mem_gb=8)
 H("c01_hexstr_2", "writer.rs", WK, ["writer::Writer::write_string"], "all hex strings of 2 bytes", timeout=400, mem_gb=6)
@@ -96,8 +112,8 @@ H("c14_encode_no_operands", "content.rs", {"C14": X}, ["content::Content::encode
 for v, d, mem in (("hard_error", "hard Err when the budget is used up", 14), ("zero_write", "Ok(0) when the budget is used up", 6), ("interrupted", "one transient Interrupted at any offset, then hard Err", 12)):
     H(f"c19_counting_write_{v}", "writer.rs", {"C19": Q, "C03": Q}, ["writer::CountingWrite::write", "writer::CountingWrite::write_all"],
       f"sink budget 0..=9, chunk 1..=3, {d}; 7 bytes (4 symbolic) through write_all twice", timeout=900, mem_gb=mem)
-H("c19_write_stream_chunked", "writer.rs", {"C19": X, "C03": X}, ["writer::Writer::write_stream", "writer::Writer::write_dictionary"],
-  "empty dictionary, 3 symbolic content bytes, sink accepting 1..=3 bytes per call: delivered bytes are exactly the framing + content", timeout=900, mem_gb=10)
+H("c19_write_stream_chunked", "writer.rs", {"C19": Q, "C03": Q}, ["writer::Writer::write_stream", "writer::Writer::write_dictionary"],
+  "empty dictionary, 5 symbolic content bytes, sink accepting at most 4 bytes per call: delivered bytes are exactly the framing + content", timeout=900, mem_gb=10)
 H("c19_counting_write_partial", "writer.rs", {"C19": Q}, ["writer::CountingWrite::write"], "single write of 4 bytes to a sink accepting 0..=4 bytes", timeout=300, mem_gb=4)
 
 # =============================== C16 / C04: text strings, one-byte encodings =====================
@@ -148,7 +164,7 @@ A2 = ["encryption::algorithms::PasswordAlgorithm::compute_file_encryption_key_r4
 for v, d in (("r2_pw5", "revision 2, 5-byte password"), ("r3_key40_pw0", "revision 3, 40-bit key, empty password"), ("r3_key128_pw33", "revision 3, 128-bit key, 33-byte password (truncated to 32)"), ("r4_key128_pw5", "revision 4, 128-bit key, 5-byte password, EncryptMetadata symbolic")):
     H(f"c06_alg2_{v}", "algorithms.rs", {"C06": Q if v == "r2_pw5" else X}, A2,
       f"Algorithm 2, {d}: all passwords x all 32-byte O x all P x all 8-byte file ids: MD5 input, number of MD5 rounds (1+50) and truncations as the standard prescribes; MD5 replaced by the recording model",
-      timeout=1500, mem_gb=12, models=MD5M, stubs=["md-5 -> transparent recording hash model", "std::hash::RandomState::new -> fixed keys"] + LS)
+      timeout=2400, mem_gb=12 if v == "r2_pw5" else 26, models=MD5M, stubs=["md-5 -> transparent recording hash model", "std::hash::RandomState::new -> fixed keys"] + LS)
 H("c05_identity_filter", "crypt_filters.rs", {"C05": Q}, ["encryption::crypt_filters::IdentityCryptFilter"], "all 4-byte data, all 5-byte keys: encrypt and decrypt are the identity", timeout=300, mem_gb=4, models=MD5M)
 H("c05_rc4_filter_roundtrip", "crypt_filters.rs", {"C05": T}, ["encryption::crypt_filters::Rc4CryptFilter::encrypt", "encryption::crypt_filters::Rc4CryptFilter::decrypt"], "concrete 10-byte object key, all 6-byte data: decrypt(encrypt(x)) == x", timeout=1500, mem_gb=12, models=MD5M, fs_size=300)
 H("c06_permissions_p_value", "encryption.rs", {"C06": Q}, ["encryption::Permissions::p_value"], "all 2^64 bit patterns vs ISO 32000-1 Table 22 reserved bits", timeout=300, mem_gb=4)
